@@ -173,12 +173,8 @@ class TorchBackend(BaseBackend):
         ``t0`` (review §4.1) — the first stored sample landed at
         ``state_rec[t0, :]`` instead of ``state_rec[0, :]``.
 
-        DDE history updates from :code:`BaseBackend._solve_euler` are not
-        replicated here because :class:`DDEHistory.update` calls
-        :code:`y.copy()`, which is not a method on torch tensors.  A
-        tensor-native DDE+Euler path would need its own ring buffer; until
-        then DDE simulation on the torch backend should use ``solver='scipy'``
-        (see :meth:`_solve_scipy_dde` below).
+        As in :code:`BaseBackend._solve_euler`, a :class:`DDEHistory` passed as first extra argument is fed with the
+        new state after every step.
         """
         # preparations for fixed step-size integration
         idx = 0
@@ -192,6 +188,8 @@ class TorchBackend(BaseBackend):
         # solve ivp via forward Euler.  Storage cadence is driven by the
         # iteration counter `i` rather than the wall-clock step number — see
         # BaseBackend._solve_euler for the rationale (review §4.2).
+        from ..base.base_backend import DDEHistory
+        has_dde = len(args) > 0 and isinstance(args[0], DDEHistory)
         t0_int = int(t0)
         for i in range(steps):
             if i % store_step == 0 and idx < store_steps:
@@ -200,5 +198,8 @@ class TorchBackend(BaseBackend):
             step = i + t0_int
             rhs = func(step, y, *args)
             y += dt * rhs
+            if has_dde:
+                # the history buffer is a numpy array: row assignment copies the tensor's values
+                args[0].update((i + 1) * dt, y.detach().cpu().numpy())
 
         return state_rec.numpy()
